@@ -1,9 +1,9 @@
 SPECIFICATION Spec
 CONSTANTS
-  Pre = 0
-  NSamples = 2
-  FragSNs = {1, 2}
-  NF = 3
+  Pre = 3
+  NSamples = 3
+  FragSNs = {5}
+  NF = 2
   MaxFaults = 3
   K = 3
   MaxRounds = 6
